@@ -1,5 +1,9 @@
 package interp
 
+import "os"
+
 func newCoopSched(m *machine, i *interpreter) scheduler {
 	panic(engineError("cooperative scheduler not built"))
 }
+
+var debugProgress = os.Getenv("SYMGO_PROGRESS") != ""
